@@ -187,6 +187,96 @@ pub fn deliver(sim: &mut Sim, d: &Delivery) -> u64 {
             format!("one parse_bytes call on {} bytes made a single allocation of {} bytes (result {} bytes, cached templates {} wire bytes)", b, a.largest, l, t),
         );
     }
+    // (5) no more decoded values than the bytes of each data set can hold under the template
+    // it was decoded with: records <= body / max(1, number of fields with a non-zero length)
+    {
+        use netflow_parser::variable_versions::{ipfix, v9};
+        // definitions an id had before, after and (template sets of this very buffer) during the call
+        let mut during: Vec<(crate::model::Proto, u16, crate::model::TDef)> = Vec::new();
+        for el in &r {
+            match el {
+                NetflowPacket::V9(x) => {
+                    for fs in &x.flowsets {
+                        match &fs.body {
+                            v9::FlowSetBody::Template(t) => {
+                                for t in &t.templates {
+                                    during.push((crate::model::Proto::V9, t.template_id, def_v9_tpl(t)));
+                                }
+                            }
+                            v9::FlowSetBody::OptionsTemplate(t) => {
+                                for t in &t.templates {
+                                    during.push((crate::model::Proto::V9, t.template_id, def_v9_opt(t)));
+                                }
+                            }
+                            _ => {}
+                        }
+                    }
+                }
+                NetflowPacket::IPFix(x) => {
+                    for fs in &x.flowsets {
+                        match &fs.body {
+                            ipfix::FlowSetBody::Template(t) => during.push((crate::model::Proto::Ipfix, t.template_id, def_ip_tpl(t))),
+                            ipfix::FlowSetBody::OptionsTemplate(t) => during.push((crate::model::Proto::Ipfix, t.template_id, def_ip_opt(t))),
+                            _ => {}
+                        }
+                    }
+                }
+                _ => {}
+            }
+        }
+        let tpl_of = |proto: crate::model::Proto, id: u16| -> Vec<&crate::model::TDef> {
+            [false, true]
+                .iter()
+                .flat_map(|o| [pre.get(&(proto, *o, id)), post.get(&(proto, *o, id))])
+                .flatten()
+                .chain(during.iter().filter(|x| x.0 == proto && x.1 == id).map(|x| &x.2))
+                .collect()
+        };
+        let allowed_for = |defs: &[&crate::model::TDef], body: usize| -> u64 {
+            defs.iter()
+                .map(|d| {
+                    let fs = d.all_fields();
+                    // every field of non-zero declared length consumes at least one byte (fixed-size
+                    // types may consume fewer bytes than an odd declared width, never zero)
+                    let min: usize = fs.iter().filter(|f| f.len != 0).count();
+                    ((body / min.max(1)) * fs.len()) as u64
+                })
+                .max()
+                .unwrap_or(0)
+        };
+        for el in &r {
+            match el {
+                NetflowPacket::V9(x) => {
+                    for fs in &x.flowsets {
+                        if let v9::FlowSetBody::Data(dt) = &fs.body {
+                            let got: u64 = dt.fields.iter().map(|m| m.len() as u64).sum();
+                            let body = usize::from(fs.header.length).saturating_sub(4);
+                            let allowed = allowed_for(&tpl_of(crate::model::Proto::V9, fs.header.flowset_id), body);
+                            if got > allowed {
+                                sim.find("C15-more-values-than-the-bytes-can-hold", d.ev, format!("V9 data flowset {} with a {}-byte body yields {} decoded values; its template allows at most {}", fs.header.flowset_id, body, got, allowed));
+                            }
+                        }
+                    }
+                }
+                NetflowPacket::IPFix(x) => {
+                    for fs in &x.flowsets {
+                        let fields = match &fs.body {
+                            ipfix::FlowSetBody::Data(dt) => &dt.fields,
+                            ipfix::FlowSetBody::OptionsData(dt) => &dt.fields,
+                            _ => continue,
+                        };
+                        let got: u64 = fields.iter().map(|m| m.len() as u64).sum();
+                        let body = usize::from(fs.header.length).saturating_sub(4);
+                        let allowed = allowed_for(&tpl_of(crate::model::Proto::Ipfix, fs.header.header_id), body);
+                        if got > allowed {
+                            sim.find("C15-more-values-than-the-bytes-can-hold", d.ev, format!("IPFIX data set {} with a {}-byte body yields {} decoded values; its template allows at most {}", fs.header.header_id, body, got, allowed));
+                        }
+                    }
+                }
+                _ => {}
+            }
+        }
+    }
     for f in d.faults {
         if let Some(rest) = f.strip_prefix("scale:") {
             if let Some((fam, k)) = rest.rsplit_once(':') {
